@@ -38,7 +38,7 @@ func main() {
 	replays := flag.String("replays", "/verif/replays", "directory for replay files")
 	findings := flag.String("findings", "", "known_findings.json")
 	tlclog := flag.String("tlclog", "", "file receiving TLC's own output lines")
-	hang := flag.Duration("hang", 10*time.Second, "watchdog limit per call")
+	hang := flag.Duration("hang", 60*time.Second, "watchdog limit per call")
 	workers := flag.Int("workers", runtime.NumCPU(), "parallel workers")
 	opt := flag.String("opt", "", "family-specific options k=v,k=v")
 	journal := flag.String("journal", "", "directory: every worker writes the line it is about to execute to <dir>/w<i> (used to find the input of a fatal crash)")
@@ -70,6 +70,17 @@ func main() {
 		defer logf.Close()
 	}
 
+	// sync.Pool contents survive only until the second garbage collection: collecting regularly makes the library
+	// work with FRESH pooled decoder / encoder / scanner states again and again, not only in the first milliseconds
+	if e.extra["gcflush"] != "0" {
+		go func() {
+			for {
+				time.Sleep(40 * time.Millisecond)
+				runtime.GC()
+				runtime.GC()
+			}
+		}()
+	}
 	type job struct{ raw []byte }
 	jobs := make(chan job, 4096)
 	var wg sync.WaitGroup
